@@ -99,22 +99,30 @@ theorem genLocal_nodup {c : V4Cfg} (hc : GoodV4 c) : (genLocal c).Nodup := by
     omega
   exact this.imp (fun h => Nat.ne_of_lt h)
 
-/-- pppoe.IPPool: inside the network, never the network address, the gateway or 255.255.255.255
+/-- pppoe.IPPool: inside the network, never the network address, the gateway, 255.255.255.255 or
+    the network's broadcast address
     (for a network that is not the whole address space: NewIPPool does not terminate on a /0) -/
 theorem mem_genPppoe {c : V4Cfg} (hc : GoodV4 c) (h1 : 1 ≤ c.ones) {a : Nat} (h : a ∈ genPppoe c) :
-    c.net < a ∧ a < c.net + 2 ^ c.hostBits ∧ a ≠ c.gw ∧ a ≠ 4294967295 := by
+    c.net < a ∧ a < c.net + 2 ^ c.hostBits ∧ a ≠ c.gw ∧ a ≠ 4294967295 ∧
+      (2 ≤ c.hostBits → a ≠ c.net + 2 ^ c.hostBits - 1) := by
   unfold genPppoe at h
   have hh : c.hostBits < 32 := by unfold V4Cfg.hostBits; omega
-  have := walk_mem hh hc.lt hc.aligned (fun a => a != c.gw && a != 4294967295) (2 ^ c.hostBits) 0
+  have := walk_mem hh hc.lt hc.aligned (pppoeKeep c) (2 ^ c.hostBits) 0
     (Nat.pow_pos (by decide)) a (by simpa using h)
   obtain ⟨l, u, k⟩ := this
-  simp only [Bool.and_eq_true, bne_iff_ne, ne_eq] at k
-  exact ⟨by omega, u, k.1, k.2⟩
+  unfold pppoeKeep at k
+  simp only [Bool.and_eq_true, bne_iff_ne, ne_eq, Bool.not_eq_true', Bool.and_eq_false_iff,
+    decide_eq_false_iff_not, beq_eq_false_iff_ne] at k
+  refine ⟨by omega, u, k.1.1, k.1.2, ?_⟩
+  intro h2
+  rcases k.2 with k2 | k2
+  · exact absurd h2 k2
+  · exact k2
 
 theorem genPppoe_nodup {c : V4Cfg} (hc : GoodV4 c) (h1 : 1 ≤ c.ones) : (genPppoe c).Nodup := by
   unfold genPppoe
   have hh : c.hostBits < 32 := by unfold V4Cfg.hostBits; omega
-  have := walk_nodup hh hc.lt hc.aligned (fun a => a != c.gw && a != 4294967295) (2 ^ c.hostBits) 0
+  have := walk_nodup hh hc.lt hc.aligned (pppoeKeep c) (2 ^ c.hostBits) 0
     (Nat.pow_pos (by decide))
   simpa using this
 
